@@ -428,7 +428,14 @@ public:
 class collapse_posts : public item_handler<post_t>
 {
 
-  typedef std::map<account_t *,value_t> totals_map;
+  // Ordered by account name, not by pointer, so that the rows reported under
+  // --depth do not depend on heap addresses.
+  struct account_name_less {
+    bool operator()(const account_t * left, const account_t * right) const {
+      return left->fullname() < right->fullname();
+    }
+  };
+  typedef std::map<account_t *, value_t, account_name_less> totals_map;
 
   expr_t&             amount_expr;
   predicate_t         display_predicate;
